@@ -104,34 +104,35 @@ class Ctx:
         return bad
 
     # ---------------------------------------------------------------- coq
-    def coq_makefile(self):
-        mk = os.path.join(COQ, "Makefile")
-        cp = os.path.join(COQ, "_CoqProject")
-        if (not os.path.exists(mk)) or os.path.getmtime(mk) < os.path.getmtime(cp):
-            rc, out = sh(["coq_makefile", "-f", "_CoqProject", "-o", "Makefile"], cwd=COQ)
-            if rc != 0:
-                raise RuntimeError("coq_makefile failed:\n" + out)
+    def coq_make(self, targets, timeout=2400):
+        env = dict(os.environ)
+        env["COQ_TIMEOUT"] = str(timeout)
+        return sh([os.path.join(VERIF, "bin", "coqmake")] + list(targets), cwd=COQ, timeout=timeout + 600, env=env)
 
     def prove(self, props_file, deps_note=None, clean=False, timeout=2400):
         """Build Props file (and everything it depends on) as full .vo; force recompile of the
         Props file itself so that this run's coqc output (Print Assumptions) is captured.
         Returns dict with obligations/discharged/axioms/ok/log."""
-        self.coq_makefile()
         props_path = os.path.join(COQ, "theories", props_file)
         vo = "theories/" + props_file[:-2] + ".vo"
         src = open(props_path).read()
         names = re.findall(r"^\s*(?:Theorem|Example|Lemma|Corollary)\s+([A-Za-z0-9_']+)", src, re.M)
         obligations = len(names)
         if clean:
-            sh(["make", "clean"], cwd=COQ)
-            self.coq_makefile()
+            # thorough tier: rebuild this property's dependency cone from scratch
+            for f in (clean if isinstance(clean, (list, tuple)) else []):
+                for ext in (".vo", ".vok", ".vos", ".glob"):
+                    try:
+                        os.remove(os.path.join(COQ, "theories", f[:-2] + ext))
+                    except FileNotFoundError:
+                        pass
         for ext in (".vo", ".vok", ".vos", ".glob"):
             try:
                 os.remove(props_path[:-2] + ext)
             except FileNotFoundError:
                 pass
         t = time.time()
-        rc, out = sh(["make", "-j16", vo], cwd=COQ, timeout=timeout)
+        rc, out = self.coq_make([vo], timeout=timeout)
         res = {"props_file": props_file, "obligations": obligations, "theorems": names,
                "build_s": round(time.time() - t, 1)}
         closed = len(re.findall(r"Closed under the global context", out))
@@ -170,9 +171,21 @@ class Ctx:
         """go build harness/cmd/<cmd> against /repo's current working tree."""
         gosum = os.path.join(HARNESS, "go.sum")
         shutil.copyfile(os.path.join(REPO, "go.sum"), gosum)
-        outbin = os.path.join(BUILD, "bin", cmd + ("-race" if race else ""))
+        suffix = ""
+        modargs = []
+        if os.path.realpath(REPO) != "/repo":
+            # scratch worktree (mutation testing): alternative go.mod with the replace redirected
+            suffix = "-" + hashlib.sha256(REPO.encode()).hexdigest()[:8]
+            altdir = os.path.join(BUILD, "altmod")
+            os.makedirs(altdir, exist_ok=True)
+            alt = os.path.join(altdir, "go%s.mod" % suffix)
+            txt = open(os.path.join(HARNESS, "go.mod")).read().replace("=> /repo", "=> " + os.path.realpath(REPO))
+            open(alt, "w").write(txt)
+            shutil.copyfile(os.path.join(REPO, "go.sum"), alt[:-4] + ".sum")
+            modargs = ["-modfile=" + alt]
+        outbin = os.path.join(BUILD, "bin", cmd + suffix + ("-race" if race else ""))
         os.makedirs(os.path.dirname(outbin), exist_ok=True)
-        args = ["go", "build", "-tags", tags, "-o", outbin]
+        args = ["go", "build"] + modargs + ["-tags", tags, "-o", outbin]
         if race:
             args.append("-race")
         args.append("./cmd/" + cmd)
@@ -185,11 +198,17 @@ class Ctx:
 
     # ---------------------------------------------------------------- findings
     def known_findings(self):
+        """Entries of KNOWN_FINDINGS.json and KNOWN_FINDINGS.d/*.json (both committed, never written at run time)."""
+        import glob
+        out = []
         try:
-            k = json.load(open(KNOWN))
+            out += json.load(open(KNOWN)).get("findings", [])
         except FileNotFoundError:
-            return []
-        return [e for e in k.get("findings", []) if e.get("property") == self.pid]
+            pass
+        for f in sorted(glob.glob(os.path.join(VERIF, "KNOWN_FINDINGS.d", "*.json"))):
+            k = json.load(open(f))
+            out += k if isinstance(k, list) else k.get("findings", [])
+        return [e for e in out if e.get("property") == self.pid and e.get("status", "known") == "known"]
 
     def print_known(self, entry, still_fails=True):
         line = "KNOWN-FINDING: property=%s %s [%s]" % (self.pid, entry["what"], entry["id"])
